@@ -661,11 +661,42 @@ func c06Precedence(c *Ctx) {
 		fmt.Sprintf("%s puts CNAME before address entries, exact before wildcard and the longer wildcard first in all 48 abstract cases", core.FuncKey(cmpFn)),
 		fmt.Sprintf("%s does not implement the documented precedence", core.FuncKey(cmpFn)), bad...)
 
+	// the sorted list: the value handed to the sort, or (when the list lives in a local cell because the function has
+	// a defer or closure) any load of that cell reached by the same stores, or one of those stored values
+	sortedVals := map[ssa.Value]bool{sorted: true}
+	if ld, ok := sorted.(*ssa.UnOp); ok {
+		if cell, ok := ld.X.(*ssa.Alloc); ok {
+			vals, _, _ := core.ReachingStores(cell, ld)
+			for _, v := range vals {
+				sortedVals[v] = true
+			}
+		}
+	}
+	isSorted := func(v ssa.Value) bool {
+		if sortedVals[v] || core.SameValue(v, sorted) {
+			return true
+		}
+		if ld, ok := v.(*ssa.UnOp); ok {
+			if cell, ok := ld.X.(*ssa.Alloc); ok {
+				vals, zero, clob := core.ReachingStores(cell, ld)
+				if zero || clob || len(vals) == 0 {
+					return false
+				}
+				for _, sv := range vals {
+					if !sortedVals[sv] {
+						return false
+					}
+				}
+				return true
+			}
+		}
+		return false
+	}
 	// the cut
 	var cuts []*ssa.Slice
 	for _, b := range fr.Blocks {
 		for _, in := range b.Instrs {
-			if sl, ok := in.(*ssa.Slice); ok && sl.X == sorted {
+			if sl, ok := in.(*ssa.Slice); ok && isSorted(sl.X) {
 				cuts = append(cuts, sl)
 			}
 		}
@@ -705,7 +736,7 @@ func c06Precedence(c *Ctx) {
 			if wc, ok := iff.Cond.(*ssa.Call); ok && core.CalleeKey(wc.Common()) == "filtering.isWildcard" {
 				if fr2, base, ok := core.LoadedField(wc.Call.Args[0]); ok && fr2.Field == "Domain" {
 					if ld, ok := base.(*ssa.UnOp); ok {
-						if ia, ok := ld.X.(*ssa.IndexAddr); ok && ia.X == sorted && (idx == nil || ia.Index == idx) {
+						if ia, ok := ld.X.(*ssa.IndexAddr); ok && isSorted(ia.X) && (idx == nil || core.SameValue(ia.Index, idx)) {
 							guarded = true
 						}
 					}
@@ -724,23 +755,33 @@ func c06Precedence(c *Ctx) {
 	}
 	// nothing else is returned after the sort
 	for _, b := range fr.Blocks {
-		ret, ok := b.Instrs[len(b.Instrs)-1].(*ssa.Return)
+		ret, ok := core.AsReturn(b.Instrs[len(b.Instrs)-1])
 		if !ok || !sortCall.Block().Dominates(b) {
 			continue
 		}
 		var leaves func(v ssa.Value, depth int)
 		leaves = func(v ssa.Value, depth int) {
-			if ph, ok := v.(*ssa.Phi); ok && v != sorted && depth < 8 && sortCall.Block().Dominates(ph.Block()) {
+			if ph, ok := v.(*ssa.Phi); ok && !isSorted(v) && depth < 8 && sortCall.Block().Dominates(ph.Block()) {
 				for _, e := range ph.Edges {
 					leaves(e, depth+1)
 				}
 				return
 			}
-			if v != sorted && v != ssa.Value(cut) {
+			if ld, ok := v.(*ssa.UnOp); ok && !isSorted(v) && depth < 8 {
+				if cell, ok := ld.X.(*ssa.Alloc); ok {
+					if vals, _, clob := core.ReachingStores(cell, ld); !clob && len(vals) > 0 {
+						for _, sv := range vals {
+							leaves(sv, depth+1)
+						}
+						return
+					}
+				}
+			}
+			if !isSorted(v) && v != ssa.Value(cut) {
 				fail("a list other than the sorted one or its cut is returned")
 			}
 		}
-		leaves(ret.Results[0], 0)
+		leaves(core.Res(ret, 0), 0)
 	}
 	r.Check(okCut, "C06-D5", "cut-at-first-wildcard", p.InstrPos(cut), "the sorted entries are cut at the first wildcard, keeping at least one entry, and only that list is returned", "the cut of the sorted entries changed: "+whyCut)
 }
